@@ -137,6 +137,28 @@ def run(res):
             f[0], dec(f[-1])[:60], dec(i)[:120] if not i.startswith(("S", "N")) else i, dec(m)[:120] if not m.startswith(("S", "N", "MODEL")) else m),
             {"cmd": f[0], "input_codepoints": f[-1], "impl": i, "model": m})
         found_input = True
+    # string literals inside expressions: the parser's escape processing (Model/WxStr.v)
+    rw = bulk_compare(["wxscan", res.tier, res.seed], "C12", eq=lambda i, m: i == m or (m == "E" and not i.startswith("V")))
+    res.notes["string_scanner_cases"] = rw["n"]
+    for (c, i, m) in rw["mismatches"][:3]:
+        res.violation("string literal body %r: the parser reads %s, the Coq model of the scanner says %s" % (
+            dec(c.split("\t")[-1]), dec(i[1:]) if i.startswith("V") else i, dec(m[1:]) if m.startswith("V") else m),
+            {"literal_body_with_closing_quote": dec(c.split("\t")[-1])})
+        found_input = True
+    # resolved paths: what <import> / <include> / <wxs src> spellings (with and without suffix, repeated suffix, the other
+    # suffix) resolve to, against Model/Path.v
+    rp = bulk_compare(["path", res.tier, res.seed], "C12p")
+    n_pd = 0
+    for (c, i, m) in rp["mismatches"]:
+        if c.startswith("path_dep\t"):
+            n_pd += 1
+            if n_pd <= 3:
+                f = c.split("\t")
+                res.violation("%s src=%r in file %r resolves to %s, the Coq path model says %s" % (
+                    f[1], dec(f[3]), dec(f[2]), dec(i.split(";")[0]) if ";" in i else i, dec(m.split(";")[0]) if ";" in m else m),
+                    {"kind": f[1], "file": dec(f[2]), "src": dec(f[3]), "impl": i, "model": m})
+                found_input = True
+    res.notes["resolved_path_cases"] = rp["kinds"].get("path_dep", 0)
     # whole pipeline, decoded by node
     p = harness_run(["litctx", res.tier, res.seed])
     jobs_in = [json.loads(l) for l in p.stdout.decode("utf8").split("\n") if l]
